@@ -71,6 +71,7 @@ type Frame struct {
 }
 
 type Exec struct {
+	elemIdx string // index term of the `fs[i]()` call whose call-site contracts are being checked
 	vc   *VC
 	p    *Prog
 	db   *ContractDB
